@@ -202,6 +202,70 @@ def generate(tier, seed):
             for ch in ([sum(counts)], _chunking(rng, sum(counts), 2)):
                 cases.append(_mk(0, LONG_US, True, [], names, counts, ch))     # keep-all: '_' names are contigs
                 cases.append(_mk(0, LONG_US + ['chr1'], False, [], names, counts, ch))   # default: all of them ignored
+    # ---- contig names held as integer codes of a StringEncoding (Genome.get_intervals(table).data, encoding.encode(names))
+    # next to plain text: label order = genome order (others after), reversed, others first.  The group borders inside
+    # a chunk must come from comparing neighbouring rows whatever the codes are, so: everything in one chunk, unequal
+    # group sizes, data orders that disagree with the label order (mis-ordered, unknown / ignored names anywhere).
+    def label_orders(genome, names, extra):
+        others = [x for x in dict.fromkeys(list(names) + list(extra)) if x not in genome]
+        a = list(genome) + others
+        return [a, a[::-1], others + list(genome)]
+
+    def with_enc(c, labels):
+        c = dict(c)
+        c['enc'] = list(labels)
+        return c
+
+    for n in (2, 3):
+        for gi, genome in enumerate(_genomes(n)[:2] + [LONG[0][0][:n]]):
+            for extra in ([], [EXTRA]):
+                pool = genome + [UNKNOWN] + extra
+                for names in _sequences(pool, 3):
+                    if len(names) < 2 or rng.random() > ((0.5 if n == 2 else 0.12) if quick else (1.0 if n == 2 else 0.3)):
+                        continue
+                    sizes_ = [[1, 2, 3], [3, 1, 2], [2, 1, 1]][rng.randrange(3)][:len(names)]
+                    m = sum(sizes_)
+                    los = label_orders(genome, names, extra)
+                    for k, ch in enumerate([[m]] + ([] if quick else [_chunking(rng, m, 2)])):
+                        lo = los[(len(cases) + k) % 3] if quick else None
+                        for labels in ([lo] if quick else los):
+                            cases.append(with_enc(_mk(0, genome, False, extra, names, sizes_, ch), labels))
+                            if not extra:
+                                cases.append(with_enc(_mk(1, genome, False, [], names, sizes_, ch), labels))
+                                if k == 0 and (not quick or rng.random() < 0.3):
+                                    cases.append(with_enc(_mk(2, genome, False, [], names, sizes_, ch), labels))
+    # the generic sweeps again, sampled, with a rotating label order
+    base = [c for c in cases if not c.get('enc') and len(c['groups']) >= 2]
+    step = 9 if quick else 12
+    for j, c in enumerate(base[::step]):
+        los = label_orders(c['genome'], [g[0] for g in c['groups']], c['extra'])
+        cases.append(with_enc(c, los[j % 3]))
+
+    # ---- two genomes alive: g2 = g.with_ignored_added(derive) is derived from g, then the consumers run on g (must behave
+    # exactly as if nothing had been derived) and on g2 (ignores the added names), with data naming the added contigs
+    OTHER = 'chrJ'
+    for n in (1, 2, 3):
+        for genome in _genomes(n)[:2]:
+            for keepall in (False, True):
+                for derive in ([], [EXTRA], [EXTRA, OTHER], [genome[-1]], [EXTRA, genome[0]]):
+                    pool = list(dict.fromkeys(genome + [UNKNOWN] + derive))
+                    for names in _sequences(pool, 3):
+                        if not names:
+                            continue
+                        hits = any(x in derive for x in names)
+                        p = (0.22 if hits else 0.04) if quick else (1.0 if hits else 0.4)
+                        if rng.random() > p * (1.0 if n < 3 else 0.35):
+                            continue
+                        counts = [rng.choice([1, 2]) for _ in names]
+                        ch = _chunking(rng, sum(counts), rng.randrange(3))
+                        for use in ('base', 'derived'):
+                            if not _ctx(dict(route=0, genome=genome, keepall=keepall, extra=[], session=dict(derive=derive, use=use)))[0]:
+                                continue
+                            c = _mk(0, genome, keepall, [], names, counts, ch)
+                            c['session'] = dict(derive=list(derive), use=use, warm=bool(rng.randrange(2)))
+                            if rng.random() < 0.25:
+                                c['enc'] = label_orders(genome, names, derive)[rng.randrange(3)]
+                            cases.append(c)
     # every chunking of selected data sets (good order, swapped, unknown in the middle / at the end, ignored)
     g3 = ['chr1', 'chr2', 'chr3']
     sel = [(g3, ['chr1', 'chr2', 'chr3'], [2, 2, 1]), (g3, ['chr1', 'chr3'], [3, 2]), (g3, ['chr2', 'chr1'], [2, 2]),
@@ -285,8 +349,17 @@ def observe(case):
     chunks = _cut(ents, case['chunks'])
     sizes = {n: L for n in case['genome']}
 
+    labels = case.get('enc')          # None: plain-text names; else the label order of a StringEncoding
+
+    def coded(tab):
+        """the same table with its chromosome column held as integer codes of StringEncoding(labels)"""
+        if not labels:
+            return tab
+        from bionumpy.encodings.string_encodings import StringEncoding
+        return bnp.replace(tab, chromosome=StringEncoding(list(labels)).encode(tab.chromosome))
+
     def iv_stream():
-        return NpDataclassStream(iter([Interval.from_entry_tuples([(n, i, i + 1) for n, i in ch]) for ch in chunks]), Interval)
+        return NpDataclassStream(iter([coded(Interval.from_entry_tuples([(n, i, i + 1) for n, i in ch])) for ch in chunks]), Interval)
 
     out = {}
     if case['route'] == 0:
@@ -296,6 +369,16 @@ def observe(case):
             g = bnp.Genome.from_dict(sizes, filter_function=(lambda x: True) if case['keepall'] else ignore_underscores)
             if case['extra']:
                 g = g.with_ignored_added(case['extra'])
+            sess = case.get('session')
+            if sess is not None:
+                # two genomes alive: g2 is derived from g; deriving must change nothing in g
+                g2 = g.with_ignored_added(list(sess['derive']))
+                if sess.get('warm'):      # use the derived genome once before the base one is used
+                    try:
+                        bnp.compute(g2.get_intervals(iv_stream()).get_pileup().sum())
+                    except Exception:
+                        pass
+                return g2 if sess['use'] == 'derived' else g
             return g
 
         def rows_pileup():
@@ -314,7 +397,7 @@ def observe(case):
                 for j, i in enumerate(ids):
                     first[i] = (j, j + 1 if j + 1 < len(ids) else L)
             for ch in chunks:
-                bch.append(BedGraph.from_entry_tuples([(n, first[i][0], first[i][1], i + 1) for n, i in ch]))
+                bch.append(coded(BedGraph.from_entry_tuples([(n, first[i][0], first[i][1], i + 1) for n, i in ch])))
             t = genome().get_track(NpDataclassStream(iter(bch), BedGraph))
             r = bnp.compute(t.get_data())
             return [[c, int(v) - 1] for c, v in zip(r.chromosome.tolist(), r.value.tolist()) if int(v) > 0]
@@ -367,7 +450,7 @@ def observe(case):
             assert int(t[0][0]) == 0
             return [int(t[0][1]), int(t[1][0])]
         def table():       # the same data handed over as ONE TABLE held in memory
-            return Interval.from_entry_tuples([(n_, i, i + 1) for n_, i in ents])
+            return coded(Interval.from_entry_tuples([(n_, i, i + 1) for n_, i in ents]))
 
         def mslist_tab():
             ms = MultiStream(sizes, a=table())
@@ -467,7 +550,7 @@ def to_coq(case, o):
     return ('{| k_route := %s; k_genome := %s; k_keepall := %s; k_extra := %s; k_groups := %s; k_chunks := %s; '
             'k_rows := %s; k_flat := %s; k_sum := %s; k_mslist := %s; k_mszip := %s; k_ct := %s; k_mslist_tab := %s; k_mszip_tab := %s; k_ct_tab := %s; k_lj := %s |}' % (
                 cz(case['route']), clist([_nm(n) for n in case['genome']], 'bname'), cbool(case['keepall']),
-                clist([_nm(n) for n in case['extra']], 'bname'),
+                clist([_nm(n) for n in _extra(case)], 'bname'),
                 clist(['(%s, %s)' % (_nm(n), zl(ids)) for n, ids in case['groups']], 'bname * ids'),
                 clist([rows(ch) for ch in chunks], 'list (bname * Z)'),
                 f('rows', rows, 'list (bname * Z)'), f('flat', zl, 'list Z'), f('sum', cz, 'Z'),
@@ -479,10 +562,16 @@ def to_coq(case, o):
 
 
 # ----------------------------------------------------------------------------- python-side expectation (for findings / evidence only)
+def _extra(case):
+    """names ignored through with_ignored_added in the genome the consumers run on: deriving g2 from g adds names to g2 only"""
+    sess = case.get('session')
+    return list(case['extra']) + (list(sess['derive']) if sess and sess['use'] == 'derived' else [])
+
+
 def _ctx(case):
     if case['route'] != 0:
         return list(case['genome']), []
-    ign = ([] if case['keepall'] else [n for n in case['genome'] if '_' in n]) + list(case['extra'])
+    ign = ([] if case['keepall'] else [n for n in case['genome'] if '_' in n]) + _extra(case)
     return [n for n in case['genome'] if n not in ign], ign
 
 
@@ -587,7 +676,7 @@ def nontrivial(case, o):
 
 
 def describe(case, o):
-    return dict(route=case['route'], genome=case['genome'], keepall=case['keepall'], extra=case['extra'],
+    return dict(route=case['route'], genome=case['genome'], keepall=case['keepall'], extra=case['extra'], enc=case.get('enc'), session=case.get('session'),
                 groups=case['groups'], chunks=case['chunks'], observed=o, expected=_expected(case))
 
 
@@ -606,7 +695,9 @@ def distribution(cases, obs):
         d['keepall'] += c['keepall']
         G, I = _ctx(c)
         d['underscore_included'] += any('_' in n for n in G)
-        d['with_unknown'] += any(n not in c['genome'] and n not in c['extra'] for n, _ in c['groups'])
+        d['with_unknown'] += any(n not in c['genome'] and n not in _extra(c) for n, _ in c['groups'])
+        d['encoded_names'] = d.get('encoded_names', 0) + bool(c.get('enc'))
+        d['two_genomes'] = d.get('two_genomes', 0) + (c.get('session') is not None)
         d['long_names'] = d.get('long_names', 0) + any(len(n) > 8 for n in c['genome'])
         d['with_ignored'] += any(n in I for n, _ in c['groups'])
         if isinstance(o, dict):
